@@ -116,7 +116,19 @@ pub fn run(sc: &Value) -> Vec<String> {
                     }
                 }
                 "newb" => {
-                    let b = sessions[&o(1)].get("http://settings.test/x");
+                    // the request method plays no part in how settings flow (SettingsArc has no method): every
+                    // constructor of the session is used, chosen by scenario and builder name
+                    let k = gs(sc, "id").bytes().chain(o(2).bytes()).fold(7usize, |a, b| a.wrapping_mul(31).wrapping_add(b as usize));
+                    let s = &sessions[&o(1)];
+                    let u = "http://settings.test/x";
+                    let b = match k % 8 {
+                        0 | 1 => s.get(u),
+                        2 | 3 => s.head(u),
+                        4 => s.post(u),
+                        5 => s.put(u),
+                        6 => s.delete(u),
+                        _ => s.patch(u),
+                    };
                     builders.insert(o(2), b);
                 }
                 "prep" => {
@@ -128,9 +140,16 @@ pub fn run(sc: &Value) -> Vec<String> {
                     // show the request's own max_redirections / follow_redirects / max_headers at work
                     let mut world = World::new(vec![], vec![]);
                     world.trace_conn = None;
-                    world.responder = Some(Box::new(|_ci, c| {
+                    world.responder = Some(Box::new(|ci, c| {
                         if c.script.wire.is_empty() && !c.written.is_empty() {
-                            let mut r = b"HTTP/1.1 302 Found\r\nLocation: /again\r\nContent-Length: 0\r\n".to_vec();
+                            // the chain changes origin (host, port) on every other hop
+                            let loc = match ci % 4 {
+                                0 => "http://elsewhere.test:8080/again".to_string(),
+                                1 => "/again".to_string(),
+                                2 => "http://settings.test/back".to_string(),
+                                _ => "//third.test/again".to_string(),
+                            };
+                            let mut r = format!("HTTP/1.1 302 Found\r\nLocation: {}\r\nContent-Length: 0\r\n", loc).into_bytes();
                             for i in 0..10 {
                                 r.extend_from_slice(format!("x-h-{}: v\r\n", i).as_bytes());
                             }
